@@ -107,6 +107,11 @@ pub broadcast proof fn axiom_strip_prefix_str(s: &str, p: &str, r: Option<&str>)
         None => !(utf8(s@).len() >= utf8(p@).len() && utf8(s@).subrange(0, utf8(p@).len() as int) == utf8(p@)),
     },
 {}
+/// `String: AsRef<str>` yields the string's own characters
+#[verifier::external_body]
+pub broadcast proof fn axiom_string_str(s: &String)
+    ensures (#[trigger] string_str(s))@ == s@,
+{}
 /// T18: white space among the ASCII characters is exactly TAB, LF, VT, FF, CR and SPACE
 #[verifier::external_body]
 pub broadcast proof fn axiom_is_ws_ascii(c: char)
@@ -251,7 +256,7 @@ pub broadcast group group_trusted {
     axiom_vecu8_ord, axiom_vecu8_ord2, axiom_vecu8_borrow,
     axiom_contains_borrowed, axiom_maps_borrowed, axiom_removed_borrowed, axiom_vecu8_cmp,
     axiom_vec_ref, axiom_str_ref, axiom_vec_of, axiom_vec_from_str, axiom_vec_from_slice, axiom_vec_from_str_obeys, axiom_vec_from_slice_obeys, axiom_array_ref,
-    axiom_ip4_len, axiom_ip6_len, axiom_is_ws_ascii,
+    axiom_ip4_len, axiom_ip6_len, axiom_is_ws_ascii, axiom_string_str,
 }
 
 /// extensionality axioms have two independent triggers (quadratic instantiation): they are kept out of the default group and
